@@ -884,7 +884,8 @@ def NOT(x):
 
 def spec_guard(src: str, rename: Optional[Rename] = None, int_atoms=None):
     """Parse a guard written as Python source in role symbols, normalise with the same machinery."""
-    e = ast.parse(src, mode="eval").body
+    from .canon import Canon
+    e = ast.fix_missing_locations(Canon().visit(ast.parse(src, mode="eval"))).body
     return simplify(Normalizer(None, rename, inline=False, int_atoms=int_atoms).guard(e))
 
 
